@@ -7,8 +7,11 @@
 #ifndef __CPROVER__
 #include <stdio.h>
 extern int vk_fail_count;
-#define __CPROVER_assert(c, m) do { if (!(c)) { printf("CHECK-FAIL: %s\n", m); vk_fail_count++; } } while (0)
-#define __CPROVER_assume(c) do { if (!(c)) { printf("ASSUME-FALSE: %s\n", #c); exit(3); } } while (0)
+/* native builds (replay, translation validation): a violated assumption or an exceeded MODEL bound means
+ * "this input is outside the query" -> vk_skip (replay: exit 3; TV: skip the input) */
+void vk_skip(const char* why);
+#define __CPROVER_assert(c, m) do { if (!(c)) { if (!strncmp((m), "MODEL:", 6)) vk_skip(m); else { printf("CHECK-FAIL: %s\n", m); vk_fail_count++; } } } while (0)
+#define __CPROVER_assume(c) do { if (!(c)) vk_skip(#c); } while (0)
 #define __CPROVER_atomic_begin()
 #define __CPROVER_atomic_end()
 #endif
@@ -24,7 +27,12 @@ extern int vk_fail_count;
 #endif
 #if defined(__CPROVER__)
 void ll2c_memcpy(uint8_t* d, const uint8_t* s, uint64_t n) { __CPROVER_assert(n <= LL2C_MAXCPY, "MODEL: copy within modelled bound"); for (unsigned k = 0; k < LL2C_MAXCPY; k++) if (k < n) d[k] = s[k]; }
-void ll2c_memmove(uint8_t* d, const uint8_t* s, uint64_t n) { uint8_t t[LL2C_MAXCPY]; __CPROVER_assert(n <= LL2C_MAXCPY, "MODEL: copy within modelled bound"); for (unsigned k = 0; k < LL2C_MAXCPY; k++) if (k < n) t[k] = s[k]; for (unsigned k = 0; k < LL2C_MAXCPY; k++) if (k < n) d[k] = t[k]; }
+/* memmove: one guarded pass, direction chosen like the C library does (overlap-safe) */
+void ll2c_memmove(uint8_t* d, const uint8_t* s, uint64_t n) {
+  __CPROVER_assert(n <= LL2C_MAXCPY, "MODEL: copy within modelled bound");
+  if ((uint64_t)d <= (uint64_t)s) { for (unsigned k = 0; k < LL2C_MAXCPY; k++) if (k < n) d[k] = s[k]; }
+  else { for (unsigned k = LL2C_MAXCPY; k-- > 0;) if (k < n) d[k] = s[k]; }
+}
 void ll2c_memcpy_c(uint8_t* d, const uint8_t* s, uint64_t n) { __CPROVER_assert(n <= 4 * LL2C_MAXCPY, "MODEL: copy within modelled bound"); for (unsigned k = 0; k < n; k++) d[k] = s[k]; }
 void ll2c_memmove_c(uint8_t* d, const uint8_t* s, uint64_t n) { uint8_t t[4 * LL2C_MAXCPY]; __CPROVER_assert(n <= 4 * LL2C_MAXCPY, "MODEL: copy within modelled bound"); for (unsigned k = 0; k < n; k++) t[k] = s[k]; for (unsigned k = 0; k < n; k++) d[k] = t[k]; }
 void ll2c_memset_c(uint8_t* d, uint8_t c, uint64_t n) { __CPROVER_assert(n <= 4 * LL2C_MAXCPY, "MODEL: set within modelled bound"); for (unsigned k = 0; k < n; k++) d[k] = c; }
